@@ -4,6 +4,7 @@ mod c06;
 mod c11;
 mod c12;
 mod c13;
+mod c15;
 mod c16;
 mod c17;
 mod expand;
@@ -30,6 +31,7 @@ fn main() {
         "C11" => c11::main(&args[1..]),
         "C12" => c12::main(&args[1..]),
         "C13" => c13::main(&args[1..]),
+        "C15" => c15::main(&args[1..]),
         "C16" => c16::main(&args[1..]),
         "C17" => c17::main(&args[1..]),
         o => {
